@@ -249,6 +249,8 @@ def apply(s, ev):
         want = [active_before.job.path] if active_before is not None and active_before.is_running() else []
         if sorted(stops) != sorted(want):
             return ('stop-current-not-delivered-to-exactly-the-current-job', 'delivered %r, expected %r' % (stops, want))
+        if raised:
+            return ('stop-current-request-raises', raised)
     elif kind == 'stop-all':
         want = ([active_before.job.path] if active_before is not None and active_before.is_running() else []) + \
             [a.job.path for a in bg_before]
@@ -256,6 +258,8 @@ def apply(s, ev):
             return ('stop-all-not-delivered-to-all-jobs', 'delivered %r, expected %r' % (stops, want))
         if after[0]:
             return ('stop-all-leaves-queue', repr(after[0]))
+        if raised:
+            return ('stop-all-request-raises', raised)
     elif kind in ('status', 'capture', 'index'):
         if raised:
             return ('%s-page-raises' % kind, raised)
@@ -417,6 +421,23 @@ def shipped_manifest(workdir):
         viol.append(('retrieve-does-not-run-what-capture-wrote',
                      'capture wrote %r, the retrieve path opened %r' % (written, opened),
                      [('capture',), ('get', 'retrieve')]))
+    for e in s.manifest:
+        pth = entry_path(e)
+        if not e['file_name'] and ('/' + pth) not in front_end.blueprint.routes:
+            viol.append(('button-without-a-file-is-not-a-fixed-route', 'path %r, title %r' % (pth, e.get('title')),
+                         [('shipped-manifest',)]))
+        if ('/' + pth) in front_end.blueprint.routes and pth not in ('capture',):
+            # the buttons with a meaning of their own: pressed while a script runs, they answer without an error
+            s3 = Sys(manifest, workdir)
+            first = next(entry_path(x) for x in s3.manifest if x['file_name'] and not x.get('run_background'))
+            apply(s3, ('get', first))
+            kind3 = {'stop-all': ('stop-all',), 'stop-current': ('stop-current',), 'off': ('off',),
+                     'status': ('status',)}.get(pth)
+            if kind3 is not None:
+                r = apply(s3, kind3)
+                n += 1
+                if r not in (None, 'skip'):
+                    viol.append((r[0], r[1], [('shipped-manifest',), ('get', first), kind3]))
     for e in s.manifest:
         pth = entry_path(e)
         if not pth or '/' in pth or pth == 'retrieve' or ('/' + pth) in front_end.blueprint.routes:
